@@ -230,6 +230,7 @@ def decide(prop, tier, seed, work, evid_path, a, t_start):
         for job, r in ex.map(runjob, jobs):
             results.append((job, r))
 
+    trace_runs = {}
     violations = []
     known_hits = []
     broken = []
@@ -306,12 +307,22 @@ def decide(prop, tier, seed, work, evid_path, a, t_start):
             else:
                 cf_use, ll_use, tagdef = cfile, ll, ()
             # trace for this property
-            rt = P.run_cbmc(cf_use, e['name'], e.get('unwind', 8), e.get('timeout', default_to),
-                            list(e.get('cbmc_args', [])) + ['--property', p['name'], '--trace'], unwindset=e.get('unwindset', []))
+            # (property ids are not stable across option sets, so the whole entry is re-run with traces once and
+            #  the counterexample is picked by description + function)
+            tkey = (hb.name, e['name'], tagdef)
+            if tkey not in trace_runs:
+                trace_runs[tkey] = P.run_cbmc(cf_use, e['name'], e.get('unwind', 8), e.get('timeout', default_to),
+                                              list(e.get('cbmc_args', [])) + ['--trace'], unwindset=e.get('unwindset', []))
+            rt = trace_runs[tkey]
             trace = None
-            for q in rt['props']:
-                if q['name'] == p['name'] and q['status'] == 'FAILURE':
-                    trace = q['trace']
+            for exact in (True, False):
+                for q in rt['props']:
+                    same = (q['desc'] == p['desc']) if exact else ((q['desc'] or '').split(':')[0] == (p['desc'] or '').split(':')[0])
+                    if same and q['loc'] == p['loc'] and q['status'] == 'FAILURE' and q.get('trace'):
+                        trace = q['trace']
+                        break
+                if trace is not None:
+                    break
             if trace is None:
                 broken.append('%s:%s could not regenerate trace for %s' % (hb.name, e['name'], p['name']))
                 continue
